@@ -13,6 +13,9 @@ def dispatch(pid: str, tier: str) -> int:
     if pid in ('C13', 'C14', 'C15'):
         from harness import check_tax
         return getattr(check_tax, pid.lower())(tier)
+    if pid in ('C05', 'C06', 'C07', 'C19'):
+        from harness import check_store
+        return getattr(check_store, pid.lower())(tier)
     raise MachineryError(f'no check for {pid}')
 
 
